@@ -213,7 +213,9 @@ OWN = re.compile(r'<span class="numbat-[a-z-]+">|</span>')
 def w_c20(seed):
     inputs = ["let x = <img src=x onerror=alert(1)> + 1", "\"<b>bold</b> & co\"", "let a&b = 1", "print(\"<script>alert(1)</script>\")",
               "let <i>x = 1", "unknown_<u>ident", "1 m + 1 s # <b>comment</b>", "error(\"<img src=x>\")", "fn f<T>(x: T) = x + <b>",
-              "struct A { a: <x> }", "fn f(x) = if x == \"<img src=x onerror=alert(1)>\" then x * 2 else 1", "struct script {}\nfn g(x) = [x, script {}, [script {}]]", "\"&lt; already & escaped\"", "assert_eq(\"<a>\", \"<b>\")", "use <evil>::module", "\"{\"<u>\"}\"", "'<'"]
+              "struct A { a: <x> }", "fn f(x) = if x == \"<img src=x onerror=alert(1)>\" then x * 2 else 1", "struct script {}\nfn g(x) = [x, script {}, [script {}]]", "\"&lt; already & escaped\"", "assert_eq(\"<a>\", \"<b>\")", "use <evil>::module", "\"{\"<u>\"}\"", "'<'",
+              "@name(\"Magnetic flux\\n<img src=x onerror=alert(1)>\")\n@url(\"https://x.example/?a=<b>&c\")\nlet vx_flux = 2 weber", "%info vx_flux",
+              "@name(\"<i>fn</i>\")\n@description(\"first <b>line</b>\\nsecond <u>line</u>\")\nfn vx_doc(x: Scalar) -> Scalar = x", "%info vx_doc", "%info <script>"]
     got, raw = session(inputs, html=True)
     for i, inp in enumerate(inputs):
         for k, v in got.get(i, []):
